@@ -119,6 +119,9 @@ def tr(node, env):
             if isinstance(op, (ast.In, ast.NotIn)):
                 if ta == "str" and tb == "strs":
                     s = "(mem %s %s)" % (pa, pb)
+                elif ta == "str" and tb == "namemap":
+                    # k in names, names a Mapping[str, str] modelled as an association list (Proofs/FunSites.v mem_key)
+                    s = "(mem_key %s %s)" % (pa, pb)
                 else:
                     raise Untranslatable("in on unsupported types")
                 out.append(s if isinstance(op, ast.In) else "(negb %s)" % s)
@@ -160,8 +163,24 @@ def tr(node, env):
                 if ta == zip_type("str", "num"):
                     return "(sort_stable name_lt %s)" % pa, ta
             raise Untranslatable("call " + ast.unparse(node)[:60])
+        if fname == "isinstance":
+            return type_test(node, env), "bool"
+        if (fname == "len" and len(node.args) == 1 and not node.keywords and "len" not in env and isinstance(node.args[0], ast.Attribute)
+                and isinstance(node.args[0].value, ast.Name) and node.args[0].value.id in env.get("<mut>", {})
+                and ast.unparse(node.args[0]) not in env):
+            # len(g.coll), g the copy being updated: the length of the collection's value current at this statement (the
+            # collection itself cannot be read, so no alias is made)
+            kind, fields = env["<mut>"][node.args[0].value.id]
+            proj, ty = attr_proj(kind, node.args[0].attr)
+            if ty.startswith("list:"):
+                return "(List.length %s)" % fields[proj], "nat"
         args = [tr(a, env) for a in node.args]
         kw = {k.arg: tr(k.value, env) for k in node.keywords}
+        if (isinstance(node.func, ast.Attribute) and node.func.attr == "isidentifier" and not args and not kw
+                and "<deps>" in env and tr(node.func.value, env)[1] == "str"):
+            # TRUSTED MAPPING: str.isidentifier() is the model's is_identifier (Spec/Valid.v), which defines identifiers
+            # over the characters the model's strings have (ASCII letters, digits, underscore)
+            return "(is_identifier %s)" % tr(node.func.value, env)[0], "bool"
         if fname == "math.isinf" and len(args) == 1:
             return "(nisinf %s)" % args[0][0], "bool"
         if fname == "math.isclose" and len(args) == 2:
@@ -171,7 +190,7 @@ def tr(node, env):
                 return "(isclose %s %s %s %s)" % (args[0][0], args[1][0], kw["rel_tol"][0], kw["abs_tol"][0]), "bool"
         if fname == "sum" and len(args) == 1 and args[0][1] == "nums":
             return "(pysum %s)" % args[0][0], "num"
-        if fname == "len" and len(args) == 1 and not kw and (args[0][1] in ("nums", "strs", "list") or elem_type(args[0][1])):
+        if fname == "len" and len(args) == 1 and not kw and (args[0][1] in ("nums", "strs", "list", "index", "namemap") or elem_type(args[0][1])):
             return "(List.length %s)" % args[0][0], "nat"
         if fname == "zip" and len(args) == 2 and not kw and fname not in env and elem_type(args[0][1]) and elem_type(args[1][1]):
             return "(combine %s %s)" % (args[0][0], args[1][0]), zip_type(elem_type(args[0][1]), elem_type(args[1][1]))
@@ -217,12 +236,106 @@ def tr(node, env):
         raise Untranslatable("constant %r" % (v,))
     if isinstance(node, (ast.List, ast.Tuple)) and all(isinstance(e, ast.Constant) and isinstance(e.value, str) for e in node.elts):
         return "[" + "; ".join('"%s"' % e.value for e in node.elts) + "]", "strs"
+    if isinstance(node, ast.IfExp):
+        # only `T if k in names else E` with names a namemap: inside T, names[k] is the value bound to k
+        g = key_guard(node.test, env)
+        if g is None:
+            raise Untranslatable("conditional expression other than `.. if k in names else ..`")
+        mk, env_then = g
+        pt, tt = tr(node.body, env_then)
+        pe, te = tr(node.orelse, env)
+        if tt != te or tt not in ("str", "num"):
+            raise Untranslatable("conditional expression of types %s / %s" % (tt, te))
+        return mk(pt, pe), tt
+    if isinstance(node, ast.ListComp):
+        # [E for a in xs], xs a list of strings, E a string computed from a without raising: map (fun a => E) xs
+        if (len(node.generators) != 1 or node.generators[0].ifs or node.generators[0].is_async
+                or not isinstance(node.generators[0].target, ast.Name)):
+            raise Untranslatable("comprehension " + ast.unparse(node)[:60])
+        gen = node.generators[0]
+        pl, tl = tr(gen.iter, env)
+        if tl != "strs":
+            raise Untranslatable("comprehension over " + tl)
+        v = tr_fresh(env, gen.target.id)
+        pe, te = tr(node.elt, bind_target(gen.target, "str", v, env))
+        if te != "str":
+            raise Untranslatable("comprehension of " + te)
+        return "(map (fun %s => %s) %s)" % (v, pe, pl), "strs"
     if isinstance(node, (ast.Name, ast.Attribute, ast.Subscript)):
         key = ast.unparse(node)
         if key in env:
             return env[key]
         raise Untranslatable("unbound name " + key)
     raise Untranslatable(type(node).__name__)
+
+
+_TRN = [0]
+
+
+def tr_fresh(env, hint):
+    _TRN[0] += 1
+    v = "%s_v%d" % (re.sub(r"\W", "", hint) or "v", _TRN[0])
+    if v in env:
+        raise Untranslatable("name clash " + v)
+    return v
+
+
+def key_guard(test, env):
+    """`k in names`, names a name of model type namemap, k a string: (mk, env_then) where mk(T, E) is the term
+         match assoc k names with Some v => T | None => E end
+    and env_then binds the expression `names[k]` (as spelt: the same k) to v.  This is exact: a Python dict lookup under
+    the guard `k in names` returns the bound value and cannot raise; an unguarded names[k] stays untranslatable.  The model's
+    namemap stands for the dict's items in insertion order (unique keys), so assoc's "first binding wins" never matters."""
+    if not (isinstance(test, ast.Compare) and len(test.ops) == 1 and isinstance(test.ops[0], ast.In)
+            and isinstance(test.comparators[0], ast.Name) and isinstance(test.left, (ast.Name, ast.Attribute))):
+        return None
+    m = test.comparators[0].id
+    if env.get(m, (None, None))[1] != "namemap":
+        return None
+    pk, tk = tr(test.left, env)
+    if tk != "str":
+        return None
+    v = tr_fresh(env, "b")
+    env_then = dict(env)
+    env_then["%s[%s]" % (m, ast.unparse(test.left))] = (v, "str")
+    return (lambda t, e: "(match assoc %s %s with Some %s => %s | None => %s end)" % (pk, env[m][0], v, t, e)), env_then
+
+
+# isinstance tests that the model's typing discharges: (model type of the tested expression, class) -> the test is `true`.
+# The model's function is defined on well-typed arguments only (names : namemap, d_name : string), so the branch that
+# raises TypeError for an ill-typed argument has no counterpart in the model; the tie speaks about well-typed inputs.
+# The tested expression must be a parameter or a record attribute (typed by the site's bindings / RECORDS); the class
+# must be the builtin `str` or `Mapping` imported at module level from typing / collections.abc, never rebound.
+TYPE_TESTS = {("namemap", "Mapping"), ("str", "str")}
+
+
+def class_name_ok(path, name):
+    tree = ast.parse(open(os.path.join(REPO, path)).read())
+    bound = 0
+    for n in ast.walk(tree):
+        if isinstance(n, ast.Name) and n.id == name and isinstance(n.ctx, (ast.Store, ast.Del)):
+            bound += 1
+        if isinstance(n, (ast.FunctionDef, ast.ClassDef)) and n.name == name:
+            bound += 1
+        if isinstance(n, ast.arg) and n.arg == name:
+            bound += 1
+        if isinstance(n, (ast.Import, ast.ImportFrom)) and any((a.asname or a.name) == name for a in n.names):
+            top = n in tree.body and isinstance(n, ast.ImportFrom) and n.module in ("typing", "collections.abc") and n.level == 0 \
+                and any(a.name == name and a.asname is None for a in n.names)
+            bound += 1 if top else 2
+        if isinstance(n, (ast.Global, ast.Nonlocal)) and name in n.names:
+            bound += 2
+    return bound == (0 if name == "str" else 1)
+
+
+def type_test(node, env):
+    if ("isinstance" in env or len(node.args) != 2 or node.keywords or not isinstance(node.args[1], ast.Name)
+            or node.args[1].id in env or not isinstance(node.args[0], (ast.Name, ast.Attribute)) or "<file>" not in env):
+        raise Untranslatable("type test " + ast.unparse(node)[:60])
+    p, ty = tr(node.args[0], env)
+    if (ty, node.args[1].id) not in TYPE_TESTS or not class_name_ok(env["<file>"], node.args[1].id):
+        raise Untranslatable("type test %s on a value of model type %s" % (ast.unparse(node)[:60], ty))
+    return "true"
 
 
 def nat_context(term_type):
@@ -750,6 +863,14 @@ def generate():
 # substitution, inline_call), `sorted(xs)` on lists of Deme / AsymmetricMigration (ATTRS_ORDER, a trusted fact), handlers that
 # re-raise the same class on every path, and the "update of a deep copy" form (`g = copy.deepcopy(x)`, `g.attr = e`,
 # `for y in g.coll: y.attr /= e ...` = mapM of the rebuilt record, `return g`; see bind_mutable / tr_update_loop).
+# For Graph.rename_demes, each only in exactly this shape: a Mapping[str, str] parameter of model type namemap (an association
+# list standing for the dict's items in insertion order) with `k in names` (mem_key) and names[k] under that very guard
+# (key_guard: `T if k in names else E` and `if k in names: x.attr = T` are `match assoc k names with Some v => T | None => ..`);
+# `[E for a in xs]` over strings (map); in an update loop `x.attr = <pure expression>` and `if c: x.attr = e` without else;
+# isinstance tests discharged by the model's typing (TYPE_TESTS); a loop over the copy's collection that stores nothing
+# (forM_ over its current value); a validator that is a function site called as a statement (FUN_CALLS, ty unit);
+# `value.isidentifier()` (is_identifier, trusted); `g._deme_map = {d.name: d for d in g.demes}` (build_index 0 <demes> []);
+# `len(g.coll)` / `len(g._deme_map)` of the copy.
 # Anything else is "untranslated" (fail-closed).
 RECORDS = {
     "epoch": {"start_time": ("(e_start %s)", N), "end_time": ("(e_end %s)", N), "start_size": ("(e_ssize %s)", N),
@@ -763,7 +884,9 @@ RECORDS = {
             "end_time": ("(m_end %s)", N), "rate": ("(m_rate %s)", N)},
 }
 RECORDS["graph"] = {"time_units": ("(g_units %s)", "str"), "generation_time": ("(g_gt %s)", N), "demes": ("(g_demes %s)", "list:deme"),
-                    "migrations": ("(g_migs %s)", "list:mig"), "pulses": ("(g_pulses %s)", "list:pulse")}
+                    "migrations": ("(g_migs %s)", "list:mig"), "pulses": ("(g_pulses %s)", "list:pulse"),
+                    # the name index: the model keeps positions in g_demes where the code keeps references to the Deme objects
+                    "_deme_map": ("(g_index %s)", "index")}
 # constructor and ordered projections of each record (Model/MDM.v), to rebuild a record with some fields updated; a
 # projection without a Python attribute in RECORDS (d_desc, g_desc, g_doi, g_meta, g_index) is carried over unchanged
 CTORS = {"epoch": ("mkEpoch", ["e_start", "e_end", "e_ssize", "e_esize", "e_sf", "e_self", "e_clone"]),
@@ -785,6 +908,10 @@ ERRS = {"ValueError": "ValueErr", "NotImplementedError": "OtherErr", "KeyError":
 # the callee's CURRENT signature; omitted arguments take the callee's current defaults (numeric module constants).
 NUMCONST = {1e-9: "nrel", 1e-12: "nabst"}
 FUN_CALLS = {
+    # a validator called as a statement, whose tie is  f value = model value  (res unit)
+    "valid_deme_name": dict(
+        site="v_valid_deme_name", file="demes/demes.py", qual="valid_deme_name", ty="unit",
+        params={"self": "skip", "attribute": "skip", "value": "str"}, term="(valid_deme_name {value})"),
     # a function returning a bool whose tie is  f ... = Ok (model ...)
     "isclose_deme_proportions": dict(
         site="isclose_deme_proportions", file="demes/demes.py", qual="isclose_deme_proportions", ty="bool",
@@ -854,6 +981,12 @@ def call_args(spec, node, env, recv=None):
     if len(node.args) > len(pos) or any(isinstance(x, ast.Starred) for x in node.args) or any(k.arg is None for k in node.keywords):
         raise Untranslatable("call arguments of " + spec["qual"])
     for name, x in zip(pos, node.args):
+        if spec["params"].get(name) == "skip":
+            # a parameter the callee's body may not use (see generate_funs): only the constant None is passed
+            if not (isinstance(x, ast.Constant) and x.value is None):
+                raise Untranslatable("argument %s of %s" % (name, spec["qual"]))
+            vals[name] = ("tt", "skip")
+            continue
         vals[name] = tr(x, env)
     allowed = set(pos) | set(x.arg for x in a.kwonlyargs)
     for k in node.keywords:
@@ -916,7 +1049,7 @@ class _Lift(ast.NodeTransformer):
     """replaces, in evaluation order, every sub-expression that can raise by a fresh name bound in the error monad"""
 
     def __init__(self, env, counter):
-        self.env, self.binds, self.counter, self.guarded = env, [], counter, 0
+        self.env, self.binds, self.counter, self.guarded, self.scoped = env, [], counter, 0, 0
 
     def fresh(self, hint):
         self.counter[0] += 1
@@ -945,9 +1078,43 @@ class _Lift(ast.NodeTransformer):
     def visit_IfExp(self, node):
         test = self.visit(node.test)
         self.guarded += 1
-        body, orelse = self.visit(node.body), self.visit(node.orelse)
+        saved = self.env
+        g = key_guard(test, self.env) if not self.scoped else None
+        if g is not None:
+            self.env = g[1]             # names[k] under the guard `k in names` cannot raise (see key_guard)
+        elif (isinstance(test, ast.Compare) and len(test.ops) == 1 and isinstance(test.ops[0], ast.In) and self.scoped
+              and isinstance(test.comparators[0], ast.Name) and self.env.get(test.comparators[0].id, (None, None))[1] == "namemap"):
+            # inside a comprehension the key may be the comprehension's variable (not bound here): tr decides
+            self.env = dict(self.env)
+            self.env["%s[%s]" % (test.comparators[0].id, ast.unparse(test.left))] = ("?", "str")
+        body = self.visit(node.body)
+        self.env = saved
+        orelse = self.visit(node.orelse)
         self.guarded -= 1
         return ast.IfExp(test=test, body=body, orelse=orelse)
+
+    def visit_ListComp(self, node):
+        # the iterable of the (single) generator is evaluated first and may raise; the element expression is evaluated
+        # once per element: no raising operation is accepted there
+        if len(node.generators) != 1 or node.generators[0].ifs or node.generators[0].is_async:
+            raise Untranslatable("comprehension " + ast.unparse(node)[:60])
+        gen = node.generators[0]
+        it = self.visit(gen.iter)
+        self.guarded += 1
+        self.scoped += 1
+        elt = self.visit(node.elt)
+        self.scoped -= 1
+        self.guarded -= 1
+        return ast.ListComp(elt=elt, generators=[ast.comprehension(target=gen.target, iter=it, ifs=[], is_async=0)])
+
+    def visit_DictComp(self, node):
+        raise Untranslatable("dict comprehension")
+
+    def visit_SetComp(self, node):
+        raise Untranslatable("set comprehension")
+
+    def visit_GeneratorExp(self, node):
+        raise Untranslatable("generator expression")
 
     def visit_Lambda(self, node):
         raise Untranslatable("lambda")
@@ -1147,6 +1314,25 @@ def tr_update_body(stmts, env, ctx, var):
         return wrap(binds, tr_update_body(rest, set_attr(env2, st[0], st[1], term, ty), ctx, var))
     if isinstance(s, ast.For) and update_loop(s, env) is not None:
         return tr_update_loop(s, env, ctx, lambda env2: tr_update_body(rest, env2, ctx, var))
+    if isinstance(s, ast.If) and not s.orelse and len(s.body) == 1 and isinstance(s.body[0], ast.Assign) and attr_store(s.body[0], env):
+        # if c: x.attr = e      (no else)  is  x.attr = (e if c else x.attr); c and e raise nothing.  With c = `k in names`
+        # e may read names[k]: the key is evaluated before the store, so it is the k of the test
+        name, attr, value = attr_store(s.body[0], env)
+        kind, fields = env["<mut>"][name]
+        proj, fty = attr_proj(kind, attr)
+        cb, _, cty, _ = lift(s.test, env, ctx["counter"])
+        if cb or cty != "bool":
+            raise Untranslatable("test of a conditional assignment")
+        g = key_guard(s.test, env)
+        if g is None:
+            cterm = tr(s.test, env)[0]
+            mk, env_then = (lambda t, e: "(if %s then %s else %s)" % (cterm, t, e)), env
+        else:
+            mk, env_then = g
+        vb, vterm, vty, _ = lift(value, env_then, ctx["counter"])
+        if vb:
+            raise Untranslatable("raising operation in a conditional assignment")
+        return tr_update_body(rest, set_attr(env, name, attr, mk(vterm, fields[proj]), vty), ctx, var)
     raise Untranslatable("statement in an update loop: " + ast.unparse(s)[:60])
 
 
@@ -1261,6 +1447,23 @@ def tr_block(stmts, env, ctx):
             raise Untranslatable("deepcopy of " + ty)
         return tr_block(rest, bind_mutable(env, s.targets[0].id, term, ty[4:]), ctx)
     st = attr_store(s, env) if isinstance(s, (ast.Assign, ast.AugAssign)) else None
+    if st is not None and isinstance(st[2], ast.DictComp):
+        # g._deme_map = {d.name: d for d in g.demes}: the name index rebuilt from the demes' current value.  The model
+        # keeps the POSITION of the deme in g_demes where the code keeps a reference to the Deme object (Model/MDM.v
+        # g_index); a dict comprehension inserts key by key, a later equal key overwriting the earlier entry in place
+        # (Model/Rename.v dict_set), which is build_index 0 <demes> [].
+        dc, (kind, fields) = st[2], env["<mut>"][st[0]]
+        proj, fty = attr_proj(kind, st[1])
+        gen = dc.generators[0] if len(dc.generators) == 1 else None
+        if (ctx.get("inloop") or isinstance(s, ast.AugAssign) or fty != "index" or gen is None or gen.ifs or gen.is_async
+                or not isinstance(gen.target, ast.Name) or gen.target.id in env
+                or any(isinstance(k, str) and k.startswith(gen.target.id + ".") for k in env)
+                or not (isinstance(gen.iter, ast.Attribute) and isinstance(gen.iter.value, ast.Name) and gen.iter.value.id == st[0])
+                or attr_proj(kind, gen.iter.attr) != ("g_demes", "list:deme")
+                or ast.unparse(dc.key) != gen.target.id + ".name" or RECORDS["deme"]["name"][0] != "(d_name %s)"
+                or not (isinstance(dc.value, ast.Name) and dc.value.id == gen.target.id)):
+            raise Untranslatable("index assignment " + ast.unparse(s)[:60])
+        return tr_block(rest, set_attr(env, st[0], st[1], "(build_index 0 %s [])" % fields["g_demes"], "index"), ctx)
     if st is not None:
         if ctx.get("inloop"):
             raise Untranslatable("assignment inside a loop body")
@@ -1269,6 +1472,13 @@ def tr_block(stmts, env, ctx):
     if isinstance(s, ast.For) and update_loop(s, env) is not None:
         if ctx.get("inloop"):
             raise Untranslatable("update loop inside a loop body")
+        stores = (ast.Assign, ast.AugAssign, ast.AnnAssign, ast.NamedExpr, ast.Delete, ast.With, ast.For, ast.While, ast.Import,
+                  ast.ImportFrom, ast.FunctionDef, ast.ClassDef, ast.Global, ast.Nonlocal)
+        if not any(isinstance(n, stores) for b in s.body for n in ast.walk(b)):
+            # a loop over the copy's collection that stores nothing (checks only): forM_ over the collection's value
+            # current at this statement; the loop variable is an ordinary (read-only) record inside the body
+            m, ekind, proj = update_loop(s, env)
+            return tr_for(s, rest, env, ctx, over=(env["<mut>"][m][1][proj], "list:" + ekind))
         return tr_update_loop(s, env, ctx, lambda env2: tr_block(rest, env2, ctx))
     if isinstance(s, ast.Assign) and len(s.targets) == 1 and isinstance(s.targets[0], ast.Name):
         if ctx.get("inloop"):
@@ -1313,6 +1523,18 @@ def tr_block(stmts, env, ctx):
         if handler_reraises(list(s.handlers[0].body), s.handlers[0].type.id, env):
             return tr_block(list(s.body) + rest, env, ctx)
         raise Untranslatable("try statement with a handler that changes the exception")
+    if (isinstance(s, ast.Expr) and isinstance(s.value, ast.Call) and isinstance(s.value.func, ast.Name)
+            and s.value.func.id in FUN_CALLS and FUN_CALLS[s.value.func.id]["ty"] == "unit" and s.value.func.id not in env):
+        # validator(None, None, v) as a statement, the validator a tied function site: its model counterpart (res unit)
+        spec = FUN_CALLS[s.value.func.id]
+        if "<deps>" not in env:
+            raise Untranslatable("call of %s outside a function site" % s.value.func.id)
+        for x in list(s.value.args) + [k.value for k in s.value.keywords]:
+            if not (isinstance(x, ast.Constant) and x.value is None) and lift(x, env, ctx["counter"])[0]:
+                raise Untranslatable("raising operation in the arguments of a call")
+        term = call_args(spec, s.value, env)
+        env["<deps>"].add(spec["site"])
+        return "(%s ;;; %s)" % (term, tr_block(rest, env, ctx))
     if isinstance(s, ast.Expr) and isinstance(s.value, ast.Call) and isinstance(s.value.func, ast.Attribute):
         # x.assert_close(y, ...) where the method is a tied function site
         call = s.value
@@ -1339,11 +1561,13 @@ def fresh_var(env, ctx, hint="z"):
     return v
 
 
-def tr_for(s, rest, env, ctx):
+def tr_for(s, rest, env, ctx, over=None):
     """for <target> in xs / zip(xs, ys) / enumerate(...):  a loop whose body neither returns, assigns, breaks nor
     continues is forM_ / forM2_ of the body; the search loop `if c: return False` followed by `return True` is
     forallb / forall2b of the negated test"""
     it, target = s.iter, s.target
+    if over is not None and not (isinstance(it, ast.Attribute) and isinstance(target, ast.Name)):
+        raise Untranslatable("loop over " + ast.unparse(it)[:60])
     if (isinstance(it, ast.Call) and ast.unparse(it.func) == "enumerate" and "enumerate" not in env and len(it.args) == 1
             and not it.keywords):
         # the index may only be used where nothing is translated (messages): it stays unbound
@@ -1363,7 +1587,7 @@ def tr_for(s, rest, env, ctx):
         env2 = bind_target(target.elts[1], elem_type(tyb), y, env2)
         lam, lists, allf, loopf = "fun %s %s" % (x, y), "%s %s" % (ta, tb), "forall2b", "forM2_"
     else:
-        binds, ta, tya, env1 = lift(it, env, ctx["counter"])
+        binds, ta, tya, env1 = ([], over[0], over[1], env) if over is not None else lift(it, env, ctx["counter"])
         x = fresh_var(env1, ctx)
         env2 = bind_target(target, elem_type(tya), x, env1)
         lam, lists, allf, loopf = "fun %s" % x, ta, "forallb", "forM_"
@@ -1451,7 +1675,17 @@ FUN_SITES = [
     ("Graph_in_generations", "demes/demes.py", "Graph.in_generations", [("self", "rec:graph")], "(self : graph)", "graph",
      "forall self, f_Graph_in_generations self = in_generations self",
      "in_generations deme_ingen epoch_ingen mig_ingen pulse_ingen", ["C11"]),
+    ("v_valid_deme_name", "demes/demes.py", "valid_deme_name", [("self", "skip"), ("attribute", "skip"), ("value", "str")],
+     "(value : string)", "unit", "forall value, f_v_valid_deme_name value = valid_deme_name value", "valid_deme_name raise_if",
+     ["C01", "C15"]),
+    # names : Mapping[str, str] is the model's namemap, an association list standing for the dict's items in insertion
+    # order (a dict has unique keys, so that assoc returns the first binding of a key never matters)
+    ("Graph_rename_demes", "demes/demes.py", "Graph.rename_demes", [("self", "rec:graph"), ("names", "namemap")],
+     "(self : graph) (names : namemap)", "graph", "forall names self, f_Graph_rename_demes self names = rename_demes names self",
+     "rename_demes rename_core deme_rename mig_rename pulse_rename rn valid_deme_name raise_if", ["C15"]),
 ]
+# the tactic that proves a function site's tie, where it is not plain ftie
+FUN_TACTIC = {"f_Graph_rename_demes": "ftie_upd"}
 
 
 def generate_funs():
@@ -1464,7 +1698,8 @@ def generate_funs():
         if fn is None:
             status = "function %s not found" % qual
         else:
-            env = {"<deps>": set()}
+            env = {"<deps>": set(), "<file>": path}
+            _TRN[0] = 0
             for name, ty in params:
                 if ty == "skip":        # a parameter the body may not use (attrs passes self and the attribute to validators)
                     env["__skip__" + name] = ("tt", "other")
@@ -1499,7 +1734,7 @@ def generate_funs():
 FUN_HEADER = """(* GENERATED by xlate/pyxlate.py from the current source of /repo on every run. Do not edit.
    Whole function bodies of the implementation, translated statement by statement. *)
 From Coq Require Import Bool List String Arith.
-From Demes Require Import Base.Num Base.Py Model.MDM Model.Resolve Model.SizeAt Model.ToMs Model.Close Model.InGen Proofs.ArithSites Proofs.FunSites.
+From Demes Require Import Base.Num Base.Py Model.MDM Model.Resolve Model.SizeAt Model.ToMs Model.Close Model.InGen Model.Rename Spec.Valid Proofs.ArithSites Proofs.FunSites.
 Import ListNotations.
 Local Open Scope string_scope.
 Local Open Scope list_scope.
@@ -1559,6 +1794,7 @@ Ltac ftie_step :=
   | |- context [forall2b ?f ?a ?b] => let x := fresh in destruct (forall2b f a b) eqn:x
   | |- context [forM_ ?f ?l] => let x := fresh in destruct (forM_ f l) eqn:x
   | |- context [forM2_ ?f ?a ?b] => let x := fresh in destruct (forM2_ f a b) eqn:x
+  | |- context [is_identifier ?a] => let x := fresh in destruct (is_identifier a) eqn:x
   (* divisions inside the body of a mapM (update loops), bound in another order than the model's: case on the divisor
      (closed, so the case split reaches under the binders), and when it is zero on the lists the failing loops run over *)
   | |- context [mapM (fun _ => Err ?e) ?l] => let x := fresh in destruct l eqn:x
@@ -1568,6 +1804,20 @@ Ltac ftie_step :=
 Ltac ftie_go ::= first [ reflexivity | ftie_step; ftie_go ].
 Ltac ftie := intros; first [ reflexivity
                             | unfold ngt, nge, nneq, mem; cbv zeta; cbn [existsb bind phead is_ok]; timeout 120 ftie_go ].
+(* [ftie_upd]: update loops that raise nothing are maps (mapM_pure); the collections the later statements run over are
+   then brought to one spelling (by conversion only), and the rest is ftie *)
+Ltac ftie_upd :=
+  intros; cbv zeta;
+  repeat match goal with
+  | |- context [mapM (fun x => Ok (@?f x)) ?l] =>
+      let H := fresh in pose proof (mapM_pure f l) as H; cbv beta in H; rewrite H; clear H
+  end;
+  cbn [bind negb g_demes g_migs g_pulses g_index];
+  repeat match goal with
+  | |- context [map ?f ?l] =>
+      match goal with |- context [map ?g l] => tryif constr_eq f g then fail else change (map f l) with (map g l) end
+  end;
+  ftie.
 """
 
 
@@ -1598,8 +1848,8 @@ def funs_gen(outdir, coqc, report, byid):
     with open(os.path.join(outdir, "FunProbe.v"), "w") as f:
         f.write(FUNTIE_HEADER + "\nSection FunProbe.\n  Context {N : NumOps}.\n")
         for sid, stmt, unfold in fties:
-            f.write('  Goal %s.\n  Proof. tryif solve [unfold %s, %s; ftie] then idtac "TIE-OK %s" else idtac "TIE-BROKEN %s". Abort.\n'
-                    % (stmt, sid, ", ".join(unfold.split()), sid, sid))
+            f.write('  Goal %s.\n  Proof. tryif solve [unfold %s, %s; %s] then idtac "TIE-OK %s" else idtac "TIE-BROKEN %s". Abort.\n'
+                    % (stmt, sid, ", ".join(unfold.split()), FUN_TACTIC.get(sid, "ftie"), sid, sid))
         # the "exact" lemmas that justify calls of a tied method from other function sites
         for sid, stmt, unfold in fties:
             if sid[2:] in EXACT:
@@ -1628,7 +1878,8 @@ def funs_gen(outdir, coqc, report, byid):
         f.write(FUNTIE_HEADER + "\nSection FunTie.\n  Context {N : NumOps}.\n\n")
         for sid, stmt, unfold in fties:
             if byid[sid]["status"] == "ok":
-                f.write("  Lemma tie_%s : %s.\n  Proof. unfold %s, %s; ftie. Qed.\n\n" % (sid, stmt, sid, ", ".join(unfold.split())))
+                f.write("  Lemma tie_%s : %s.\n  Proof. unfold %s, %s; %s. Qed.\n\n"
+                        % (sid, stmt, sid, ", ".join(unfold.split()), FUN_TACTIC.get(sid, "ftie")))
                 if sid[2:] in EXACT and "call_" + sid[2:] in okset:
                     f.write("  Lemma call_%s : %s.\n  Proof. unfold %s, %s; ftie. Qed.\n\n"
                             % (sid[2:], EXACT[sid[2:]], sid, ", ".join(unfold.split())))
